@@ -162,7 +162,12 @@ pub fn run(tier: Tier, replay: Option<&J>) -> i32 {
                         Ok(f2) => f2.canon.clone(),
                         Err(e) => e.clone(),
                     };
-                    if has_logical(j) && base.canon != expect {
+                    let spec_idempotent = serde_json::from_str::<J>(&expect).ok().and_then(|cj| pcf::pcf(&cj).ok()).is_some_and(|again| again == expect);
+                    if !spec_idempotent && base.canon == expect {
+                        // the specification's own normalisation is not idempotent here (a null-namespace type
+                        // nested in a namespaced one loses its namespace marker): nothing to demand
+                        st.outcome("fixpoint-undefined-by-specification");
+                    } else if has_logical(j) && base.canon != expect {
                         // consequence of the recorded deviation: the non-reduced form re-parses to the reduced one
                         st.outcome("known-deviation");
                         st.deviation("D-C12-logical-types-not-reduced-to-underlying-form", || json!({"schema": j, "canonical_form": base.canon, "second": obs}));
